@@ -85,7 +85,7 @@ Parts(lb) == {lb.c} \cup ({lb.d} \ {0})
 ValueOwner(lb, exp, r) ==
   IF lb.k > 0 /\ r.k = "exc" /\ r.s \in {"injected", "bad_alloc"} THEN {"C09"}
   ELSE IF lb.op = "swap2" THEN {"C13"}
-  ELSE IF lb.src > 0 THEN {"C10"}
+  ELSE IF lb.src > 0 THEN {"C10", "C01"}      \* (a call whose argument is an own element is also one of C01's calls)
   ELSE IF exp.ret.k = "exc" THEN {"C08"}
   ELSE IF lb.op = "relocate" THEN {"C14"}
   ELSE {"C01"}
@@ -195,6 +195,8 @@ StablePrefix(s, lb) ==
     [] lb.op \in {"popBack", "popBackVal"} -> sz - 1
     [] OTHER -> 0
 
+GrowOps == {"pushBack", "pushBackRv", "emplaceBack", "emplaceBackF", "emplace", "emplaceF", "insert1", "insert1rv", "insertN", "insertRange",
+            "insertIlist", "resize", "resizeVal", "appendN", "appendNVal", "appendRange", "appendIlist"}
 Observers == {"at", "index", "front", "back", "iterate", "eq", "ne", "lt", "le", "gt", "ge", "maxSize"}
 AppendOps == {"pushBack", "pushBackRv", "emplaceBack", "emplaceBackF"}
 
@@ -363,6 +365,10 @@ TOp ==
                 THEN "more than 2*ceil(log2 n)+4 reallocations while appending n elements"
            ELSE IF isAppend /\ Cat = "NTR" /\ obs[c].cap < obs[c].maxsz /\ rel > 4 * run + 2 * start + 16
                 THEN "element relocations not linear in the number of appended elements"
+           \* the capacity grows by the constant factor whenever a growing operation has to reallocate (not only push_back)
+           ELSE IF lb.op \in GrowOps /\ r.k # "exc" /\ st[c].ex /\ obs[c].ex /\ obs[c].cap > st[c].cap /\
+                   obs[c].cap < Min((3 * st[c].cap + 1) \div 2, obs[c].maxsz)
+                THEN "growth step smaller than the constant factor 1.5"
            ELSE IF lb.op \in {"reserve", "reserveBig"} /\ r.k = "none" /\ lb.n > st[c].cap /\ AllocInstrumented /\ nReq # 1
                 THEN "reserve(n) beyond the capacity did not use exactly one allocation"
            ELSE IF lb.op = "shrinkToFit" /\ r.k = "none" /\
@@ -397,9 +403,11 @@ TOp ==
                            THEN [buf0 |-> b0, appendRun |-> 0, reallocRun |-> 0, relocRun |-> 0, startSize |-> 0, reloc |-> rl]
                            ELSE [g EXCEPT !.buf0 = b0, !.reloc = rl]]
          v1 == IF valueFail # "" THEN AddViol(viol, owner, l, valueFail) ELSE viol
-         v2 == IF c02Fail # "" THEN AddViol(v1, {"C02"} \cup (IF faulted THEN {"C09"} ELSE {}) \cup (IF lb.op = "swap2" THEN {"C13"} ELSE {})
+         \* (C08: a call refused with a limit error leaks no element and no block either)
+         limitErr == IF ~faulted /\ exp.ret.k = "exc" THEN {"C08"} ELSE {}
+         v2 == IF c02Fail # "" THEN AddViol(v1, {"C02"} \cup limitErr \cup (IF faulted THEN {"C09"} ELSE {}) \cup (IF lb.op = "swap2" THEN {"C13"} ELSE {})
                                                   \cup (IF \E x \in Parts(lb) : gh[x].reloc THEN {"C14"} ELSE {}), l, c02Fail) ELSE v1
-         v3 == IF c06Fail # "" THEN AddViol(v2, {"C06"} \cup (IF faulted THEN {"C09"} ELSE {}) \cup (IF lb.op = "swap2" THEN {"C13"} ELSE {}), l, c06Fail) ELSE v2
+         v3 == IF c06Fail # "" THEN AddViol(v2, {"C06"} \cup limitErr \cup (IF faulted THEN {"C09"} ELSE {}) \cup (IF lb.op = "swap2" THEN {"C13"} ELSE {}), l, c06Fail) ELSE v2
          v4 == IF c05Fail # "" THEN AddViol(v3, {"C05"}, l, c05Fail) ELSE v3
          v5 == IF c07Fail # "" THEN AddViol(v4, {"C07"}, l, c07Fail) ELSE v4
          v6 == IF c18Fail # "" THEN AddViol(v5, {"C18"}, l, c18Fail) ELSE v5
